@@ -151,6 +151,9 @@ def fix_prog(ctx):
     fixed = "\n".join(out) + "\n"
     ctx.observe("fixed", fixed)
     tag = _amp_tag(out)
+    fl = first.strip(" ")
+    if fl[-1:] == ":" and fl[:-1].strip(" ").replace("_", "a").isalnum():
+        tag += " [first physical line reads 'word :']"
     if lit_blank:
         tag += " [blank in front of column 73 inside a continued character literal]"
     fmt = get_source_info_str(fixed)
